@@ -26,6 +26,7 @@ ASSUMPTIONS = [
     'tables are in the C01 domain (distinct non-empty ids, finite values)',
     'bit-exact comparison treats -0.0 and 0.0 as the same value',
 ]
+ANCHORS = ['Table.filter', 'Table.remove_empty', 'Table.head']
 REQUIRED = ['predicate_calls_checked', 'filter_by_ids', 'filter_by_predicate',
             'remove_empty_calls', 'head_calls', 'unknown_id_refused',
             'layout_unsorted_seen', 'layout_csc_seen']
